@@ -105,6 +105,9 @@ func init() {
 			nl := e.allocLoc(c.st)
 			n := SliceLen(old)
 			e.ghostSet(c.st, "relTrace", IntS, nl, uf("tcons", IntS, e.ghostGet(c.st, "relTrace", IntS, SliceBase(old)), uf("rpmRel", IntS, c.args[1])))
+			// the relations held by the list, one per line, in order (an empty list holds none)
+			prev := Ite(Eq(n, IntT(0)), StrT(""), e.ghostGet(c.st, "relLines", StringS, SliceBase(old)))
+			e.ghostSet(c.st, "relLines", StringS, nl, Ite(ok, Concat(prev, c.args[1], StrT("\n")), prev))
 			nv := MkSlice(nl, IntT(0), Add(n, IntT(1)), Add(n, IntT(1)))
 			e.storePtr(c.st, RT, c.args[0], Ite(ok, nv, old), c.pc)
 			return Ite(ok, NilIface, e.libErr("rpm:relation"))
